@@ -225,7 +225,7 @@ PROPS["C02"] = dict(
 PROPS["C08"] = dict(
     pkg="exec", test="TestC08", engine="exec", own_loop=True,
     quick=dict(checks=2400, shards=3), thorough=dict(checks=160000, shards=16),
-    nt_floor=dict(quick=500, thorough=30000),
+    nt_floor=dict(quick=350, thorough=20000),
     must_classes=["config=reflection", "config=mixed-registered", "abstract-field-resolved", "fragment-cond-differs-and-applies", "fragment-not-applicable",
                   "__typename", "binding=name/X", "binding=go-short/X", "binding=go-pkg/X", "binding=go-full/X", "binding=register/X", "binding=name/UR",
                   "frag:interface-container/object-condition", "frag:union-container/object-condition", "frag:object-container/interface-condition",
